@@ -15,6 +15,8 @@ from .common import short
 R = ("f", "r", ())          # fractional position of the marker inside its cell, r in [0, 1]
 RP = PW.of(Poly.atom(R))
 
+CASE_SPLIT = "decisions"     # branches on free inputs are analysed both ways (regions.run_under_size_cases)
+
 
 def support_and_window(S, rep, dim):
     """(a)+(b): support offsets, weight shape and transfer windows are one index set, with x on the last axis"""
@@ -314,6 +316,22 @@ def grid_agreement(S, rep):
         got = nearest.alloc.valfn((const(0), sym("i")))
         want = fn("floor", (sym("posd[0,i]") - sym("dx") / 2) / sym("dx"))
         rep.ob("C06.d", "%dD default grid shift is dx/2" % dim, got == want, "nearest index with the default shift: %r" % (got,), key="C06.d|%d|%s" % (dim, short(got, 80)))
+        # an explicit shift given by the caller (a node-centred grid passes 0) is the shift the kernels use
+        inst2 = build_vbf(S, dim, True, eul_grid_coord_shift=sym("shift_in"))
+        comm2 = inst2.attrs.get("eul_lag_grid_communicator")
+        pos2 = elem_array(S, "pose", (dim, sym("N")))
+        support2 = S.array("supporte", (dim,) + (2 * WIDTH,) * dim + (sym("N"),))
+        nearest2 = S.array("neareste", (dim, sym("N")), DType("int64"))
+        I.inline_njit = True
+        try:
+            I.call(comm2.attrs["local_eulerian_grid_support_of_lagrangian_grid_kernel"], [],
+                   dict(local_eul_grid_support_of_lag_grid=support2, nearest_eul_grid_index_to_lag_grid=nearest2, lag_positions=pos2), None, S.module(IBO))
+        finally:
+            I.inline_njit = False
+        got2 = nearest2.alloc.valfn((const(0), sym("i")))
+        want2 = fn("floor", (sym("pose[0,i]") - sym("shift_in")) / sym("dx"))
+        rep.ob("C06.d", "%dD explicit grid shift is used as given" % dim, got2 == want2, "nearest index with eul_grid_coord_shift=shift_in: %r" % (got2,),
+               key="C06.d|%d|explicit-shift|%s" % (dim, short(got2, 80)))
         kw = inst.attrs.get("interp_weights")
         rep.ob("C06.d", "%dD default kernel width 2" % dim, kw is not None and tuple(simplify_scalar(s) for s in kw.shape[:-1]) == (4,) * dim,
                "weights buffer shape %s" % (kw.shape if kw is not None else None,), key="C06.d|%d|width" % dim, nontrivial=False)
@@ -359,7 +377,7 @@ def run(S, tier, rep):
             kernel_identities(S, rep, dim, kind)
     grid_agreement(S, rep)
     simulator_coordinates(S, rep)
-    rep.require_min("C06.d", 14)
+    rep.require_min("C06.d", 16)
     rep.require_min("C06.a", 8)
     rep.require_min("C06.b", 25)
     rep.require_min("C06.c", 12)
